@@ -145,8 +145,13 @@ def _tolerant_shape(acc, stanza, n):
         attrs = dict(attrs, **{"verif-new-attr": "1"})
         acc.count("shape:unknown-attribute")
     if how in (1, 2) and data is None:
-        kids = list(kids) + [("verif-new-child", {"k": "v"}, [], None)]
-        acc.count("shape:unknown-child-appended")
+        if tag == "notification" and (n // 27) % 2 == 0:
+            # (notifications are the extensible part of the protocol: their handlers look children up by name)
+            kids = [("verif-new-child", {"k": "v"}, [], None)] + list(kids)
+            acc.count("shape:unknown-child-first")
+        else:
+            kids = list(kids) + [("verif-new-child", {"k": "v"}, [], None)]
+            acc.count("shape:unknown-child-appended")
     return (tag, attrs, kids, data)
 
 
